@@ -3,6 +3,7 @@ are the exact partial derivatives of the Hamiltonian (decidable part)."""
 
 from symex.api import Case
 from symex import refs
+from symex.env import scalar
 
 PROPERTY = "C30"
 
@@ -123,6 +124,10 @@ def d_phi(n, zero_phase):
             # real Hamiltonian at the shifted phase, everything else switched off
             ek = _unit(T, n, k)
             shifted = (phi[k] + T.pi / 2) * ek
+            # (at phi_k = -pi/2 the shifted reference would take RydbergHamiltonian's phase-free
+            # branch, where the abstraction of cos/sin knows nothing about phi_k: excluded here,
+            # the dense reference above has no such restriction)
+            env.assume(scalar(phi[k]) + T.pi / 2 != 0, "phi_k != -pi/2 in the shifted-phase cross-check")
             hk = _ham(env, omega[k] * ek, zeros, shifted, noU)
             env.check_eq(
                 got,
@@ -173,12 +178,9 @@ def d_u(n):
                 U1[j, i] = U1[j, i] + 1.0
                 h1 = _apply_rows(env, _ham(env, omega, delta, phi, U1), vecs)
                 env.check_eq(got, h1 - h0, f"dH/dU_{i}{j} v = H(U_{i}{j}+1) v - H(U) v (n={n})")
-                jj = (j + 1) % n if env.mutant("wrong_pair") and n > 2 else j
-                if jj == i:
-                    jj = (jj + 1) % n
-                ref = refs.embed2(T, nn, i, nn, jj, n)
-                if env.mutant("wrong_pair") and n == 2:
-                    ref = refs.embed(T, nn, i, n)
+                ref = refs.embed2(T, nn, i, nn, j, n)
+                if env.mutant("wrong_pair"):
+                    ref = refs.embed(T, nn, i, n)  # drops n_j
                 env.check_eq(got, _rows_of(T, ref, vecs), f"dH/dU_{i}{j} = n_{i} n_{j} (n={n})")
         env.check_eq(vecs, before, "operand unchanged by dH/dU @ v")
 
@@ -209,11 +211,25 @@ META = {
 }
 
 
+def d_diag(n):
+    fd, fu = d_delta(n), d_u(n)
+
+    def fn(env):
+        fd(env)
+        if n >= 2:
+            fu(env)
+
+    return fn
+
+
 def cases(tier):
     out = []
-    ns = [1, 2, 3] if tier == "quick" else [1, 2, 3, 4]
+    quick = tier == "quick"
+    ns = [1, 2, 3] if quick else [1, 2, 3, 4]
     for n in ns:
         for zp in (False, True):
+            if zp and quick and n != 2:
+                continue
             tag = f"n{n}_{'phase0' if zp else 'phase'}"
             b = {"n_qubits": n, "batch": BATCH, "phi": "identically 0" if zp else "symbolic (forks on phi_k = 0)"}
             out.append(
@@ -237,7 +253,14 @@ def cases(tier):
                 )
             )
         b = {"n_qubits": n, "batch": BATCH}
-        out.append(Case(f"d_delta_n{n}", d_delta(n), covers=COVERS_DELTA + COVERS_H, bounds=b, canaries=["delta_sign"], weight=4**n))
-        if n >= 2:
-            out.append(Case(f"d_u_n{n}", d_u(n), covers=COVERS_U + COVERS_H, bounds=b, canaries=["wrong_pair"], weight=4**n))
+        out.append(
+            Case(
+                f"d_delta_u_n{n}",
+                d_diag(n),
+                covers=COVERS_DELTA + COVERS_U + COVERS_H,
+                bounds=b,
+                canaries=["delta_sign"] + (["wrong_pair"] if n >= 2 else []),
+                weight=4**n,
+            )
+        )
     return out
